@@ -121,23 +121,24 @@ Proof.
 Qed.
 
 (* ===== the generic theorem: any decoder written over the source agrees under both interpretations ===== *)
-Theorem buffered_refines_ideal : forall (p : sprog A) i b h, R i b h ->
+(* same status and output; and when the program ran to its end the two runs are again related, so calls can be chained *)
+Theorem buffered_refines_ideal_rel : forall (p : sprog A) i b h, R i b h ->
   let '(r1, i') := ideal rule hint p i in
-  let '((r2, _), h') := exec h (buffered bufsize rule p b) in
-  r1 = r2 /\ iout i' = out h'.
+  let '((r2, b'), h') := exec h (buffered bufsize rule p b) in
+  r1 = r2 /\ iout i' = out h' /\ (forall a, r1 = SVal a -> R i' b' h').
 Proof.
   induction p as [a|c k IH]; intros i b h HR.
-  - cbn. split; [reflexivity|apply HR].
+  - cbn. split; [reflexivity|]. split; [apply HR|]. intros _ _. exact HR.
   - destruct c as [| |n|d|]; cbn [ideal buffered].
     + match goal with |- context [b_next _ _ _ ?K] => pose proof (sim_next i b h K HR) as S end.
       destruct (ideal_next rule i) as [[x i']|e].
       * destruct S as (b' & h' & E & R'). rewrite E. apply IH. exact R'.
-      * destruct S as (h' & E & Ho). rewrite E. cbn [exec]. split; [reflexivity|exact Ho].
+      * destruct S as (h' & E & Ho). rewrite E. cbn [exec]. split; [reflexivity|split; [exact Ho|discriminate]].
     + (* SAvail *)
       destruct (bbuf b) as [|x l] eqn:Eb.
       * match goal with |- context [b_fill _ _ _ ?K] => pose proof (sim_fill i b h K HR Eb) as F end.
         destruct (irest i) as [|y r] eqn:Ei.
-        -- destruct F as (h' & E & Ho). rewrite E. cbn [exec]. split; [reflexivity|exact Ho].
+        -- destruct F as (h' & E & Ho). rewrite E. cbn [exec]. split; [reflexivity|split; [exact Ho|discriminate]].
         -- destruct F as (b' & h' & E & R'). rewrite E. apply IH.
            destruct R' as (Hr & Ho & He & Hs). unfold R; cbn in *. rewrite Ei, Hr. repeat split; auto.
       * assert (Ei : exists y r, irest i = y :: r) by (destruct HR as (Hr & _); rewrite Hr, Eb; cbn [app]; eauto).
@@ -145,9 +146,19 @@ Proof.
     + match goal with |- context [b_copyin _ _ _ _ _ _ ?K] => pose proof (sim_copyin (S (2 * n)) n i b h [] K HR) as S end.
       destruct (ideal_take rule n i []) as [[l i']|e].
       * destruct S as (b' & h' & E & R'); [destruct (bbuf b); lia|]. rewrite E. apply IH. exact R'.
-      * destruct S as (h' & E & Ho); [destruct (bbuf b); lia|]. rewrite E. cbn [exec]. split; [reflexivity|exact Ho].
+      * destruct S as (h' & E & Ho); [destruct (bbuf b); lia|]. rewrite E. cbn [exec]. split; [reflexivity|split; [exact Ho|discriminate]].
     + cbn [exec hans]. rewrite Z.eqb_refl. apply IH.
       destruct HR as (Hr & Ho & He & Hs). unfold R; cbn. rewrite Ho, ?rev_append_rev. repeat split; auto.
     + cbn [exec hans]. apply IH. exact HR.
+Qed.
+
+Theorem buffered_refines_ideal : forall (p : sprog A) i b h, R i b h ->
+  let '(r1, i') := ideal rule hint p i in
+  let '((r2, _), h') := exec h (buffered bufsize rule p b) in
+  r1 = r2 /\ iout i' = out h'.
+Proof.
+  intros p i b h HR. pose proof (buffered_refines_ideal_rel p i b h HR) as H.
+  destruct (ideal rule hint p i) as [r1 i']. destruct (exec h (buffered bufsize rule p b)) as [[r2 b'] h'].
+  destruct H as (A1 & A2 & _). split; assumption.
 Qed.
 End Honest.
